@@ -34,6 +34,10 @@ T3  monitor                   : every attempt compared byte for byte with what w
                                 stored: every attempt still gets the accepted bytes, and right after acceptance / at rest the
                                 header and body files are the accepted bytes, ID.meta one JSON document
                                 (C10/spool-content-changed);
+                                the ORIGINAL sender of a message (MsgMetadata.OriginalFrom) is a dimension of its own: a sender
+                                rewritten before the queue (message that arrived with the null reverse-path, list / VERP-style
+                                rewriting, a source that never set the field) - every attempt still carries the ACCEPTED sender
+                                (C10/sender-changed) and the accepted original sender (C10/original-sender-changed), also at rest;
                                 C10 fleet: whatever the next hop of a queue block is handed - first attempts made while the
                                 block's delivery slots are busy, attempts after a restart of the server, attempts of a queue started
                                 on what a process left that died in the middle of a store operation - carries the ID of a message
@@ -99,7 +103,7 @@ def run(c):
         "(b) raw-field lists through the real WriteHeader+ReadHeader and the model, 0-25% ill-shaped fields; "
         "(c) messages through the REAL queue: header = what ReadHeader makes of a generated blob + 1-3 fields added the way maddy adds them (Received, Authentication-Results, DKIM-Signature, long words) + 4% junk raw fields; "
         "bodies 0 B - 70 kB (and 1 MiB - 3 MiB) as MemoryBuffer or FileBuffer (removed right after Commit), text / all byte values / dot and CRLF.CRLF patterns / bare CR LF NUL / zeros; "
-        "envelopes: null sender, ASCII, IDN U-label and A-label, quoted local parts with spaces, quotes, @, controls, UTF-8 local parts, <>&, backslash, U+2028, 1-16 recipients, duplicates "
+        "envelopes: 25% of the non-null senders with an ORIGINAL sender (MsgMetadata.OriginalFrom) that differs - the null reverse-path (two thirds) or another address: the sender was rewritten before the queue - plus 8 fixed cases; null sender, ASCII, IDN U-label and A-label, quoted local parts with spaces, quotes, @, controls, UTF-8 local parts, <>&, backslash, U+2028, 1-16 recipients, duplicates "
         "(6%: an address listed twice; deferred it is pending ONCE - every later attempt and the spool at rest must name it once, C10/pending-recipients-changed otherwise), OriginalRcpts nil / 0-11 entries, "
         "2% strings that are not valid UTF-8 (model predicts the U+FFFD replacement; outside the monitor's domain since the endpoint refuses them); SMTPUTF8 / REQUIRETLS / TLS-Required override in all 8 combinations, override set before or after Start; "
         "connection state absent / anonymous / authenticated (user name + password with JSON-escaped characters, AUTH= parameter); "
@@ -123,7 +127,7 @@ def run(c):
         "leftover files ID.header / ID.body / ID.meta.new of the message's own id lying in the spool when it is stored (longer by 1 B - 70 kB, same length, shorter, empty; header leftover = another message's well-formed header, "
         "meta leftover = another message's JSON document) in 20% of the random cases and an 80-case grid x (first attempt over the spool's body file, in-process retry, after a restart, after R / a crash before Commit, at rest); "
         "(d) the same behind a real SMTP endpoint and pipeline over TCP (AUTH PLAIN, SMTPUTF8, REQUIRETLS, BODY=8BITMIME, TLS-Required: No header, dot-stuffed DATA, bodies above the 1 MiB spill threshold, addresses that are not valid UTF-8; "
-        "TLS-Required spellings and the other envelope fields on top of 35% of the client headers, leftover files of the id the endpoint gave the message in 20%; 10% with the queue shut down right before Commit and restarted before the first attempt; bounce pipeline attached in 80%, Bcc field from the client in 20%; the same edge grid: empty body, a lone line end, 4 KiB / 32 KiB / 1 MiB boundaries, client header = CRLF only); "
+        "25% with the sender rewritten between the endpoint and the queue (W=: VERP-style or generated address; the client's MAIL FROM, <> included, stays the original sender) plus 8 fixed cases; TLS-Required spellings and the other envelope fields on top of 35% of the client headers, leftover files of the id the endpoint gave the message in 20%; 10% with the queue shut down right before Commit and restarted before the first attempt; bounce pipeline attached in 80%, Bcc field from the client in 20%; the same edge grid: empty body, a lone line end, 4 KiB / 32 KiB / 1 MiB boundaries, client header = CRLF only); "
         "(e) fleets: 1-3 target.queue blocks configured through NewQueue + Init (instance names from a pool and from families that differ only in case / an extension / blanks / a path prefix / the module name; "
         "spool = default place under the state directory (65%), location directive or inline argument), max_parallelism 1-3, 2-7 messages with sender, recipient, header (2-6 fields) and body (0 B - 1 MiB) of their own, "
         "20% carrying the ID of a message of ANOTHER block; first attempt taken / deferred / hanging in the next hop's Start (holding a delivery slot, so that later messages of the block wait for one), "
@@ -134,7 +138,7 @@ def run(c):
         "models tied to textproto and queue.go by differential runs; the monitor compares every attempt with what was accepted, greps the spool for the credentials, "
         "and requires that a message with pending recipients is attempted when the history says so and is complete and unaltered in the spool whenever the queue is at rest; "
         "failure reports generated between attempts (and by a second queue sharing header value and metadata) must leave every later attempt and the source's own header / metadata as accepted; "
-        "the store step is 'file := new content' (C10_store_overwrites_leftovers; os.Create pinned by the regenerated writer list), the envelope handed over never depends on the header (C10_override_does_not_depend_on_the_header); "
+        "the store step is 'file := new content' (C10_store_overwrites_leftovers; os.Create pinned by the regenerated writer list), the envelope handed over never depends on the header (C10_override_does_not_depend_on_the_header), the sender handed over is the accepted one whatever the original sender is (C10_sender_handed_does_not_depend_on_the_original_sender); "
         "what an attempt leaves pending is the set of the deferred addresses, each once, in order of first occurrence (C10_pending_is_the_retry_set_each_once, C10_repeated_recipient_is_pending_once); "
         "blocks with distinct instance names keep their files in distinct places, a restarted block hands its next hop exactly the entries it stored itself, a store operation that is interrupted leaves no entry "
         "(C10_fleet_dirs_distinct, C10_fleet_restart_hands_own_messages_only, C10_fleet_restart_hands_every_pending_message, C10_fleet_crash_while_storing_leaves_no_entry, C10_fleet_spool_holds_accepted_messages_only)",
